@@ -246,3 +246,17 @@ def h5(ctx: Ctx) -> None:
     from .c13 import r5 as registration_rule
 
     registration_rule(ctx)
+
+
+@rule("C14.H6", "mechanism shared with C18: the target, rate and window a shock runs with are the configured ones (nearest definition wins along an `extends` chain)", "T4 loop structure (same rule as C18.R1)", floor=5)
+def h6(ctx: Ctx) -> None:
+    from .c18 import r1 as inheritance_rule
+
+    inheritance_rule(ctx)
+
+
+@rule("C14.H7", "mechanism shared with C13: the market-step triggers are called at every step of every session, for every market", "T4 (the step part of C13.R3)", floor=1)
+def h7(ctx: Ctx) -> None:
+    from .c13 import check_call_sites
+
+    check_call_sites(ctx, {"step"})
